@@ -462,6 +462,15 @@ class Norm:
             if n["hid"] in self.env:
                 return self.env[n["hid"]]
             return Rat.atom(n["name"])
+        if k == "field" and str(n.get("f", "")).isdigit():
+            # `.N` of a local known to be the tuple (a, b, ..): its N-th component
+            b0 = strip(n["b"])
+            while b0 is not None and b0.get("k") in ("ref", "un"):
+                b0 = strip(b0["x"])
+            if b0 is not None and b0.get("k") == "local" and b0["hid"] in self.env:
+                tv = str(self.env[b0["hid"]])
+                if tv in REG and REG[tv][0] == "tup" and int(n["f"]) < len(REG[tv][1]):
+                    return _r(REG[tv][1][int(n["f"])])
         if k in ("field", "index"):
             return Rat.atom(self.place_name(n))
         if k == "cast":
